@@ -5,7 +5,7 @@ ST = "verif-stubs/async_backend.py"
 
 
 def register(R):
-    R.ghost(delivered="int", live_gens="int", last_timeout="opt[xreal]", io_exc="int", filter_calls="int", filter_accepts="int")
+    R.ghost(delivered="int", live_gens="int", last_timeout="opt[xreal]", io_exc="int", filter_calls="int", filter_accepts="int", handler_failures="int")
     R.external("contextlib.nullcontext", "stubs.async_backend.NullContext")
     R.module(ST)
     R.shape("NullContextModel", cls="NullContext", fields={})
@@ -52,7 +52,8 @@ def register(R):
             ("a-parse-error-is-thrown-at-its-position-and-costs-exactly-that-frame",
              f"implies({is_throw} and typeof(result.exception, 'StreamProtocolParseError'), {p['err']} and {U} == {p['rest']})", "C15 C02"),
             ("a-timeout-cancellation-or-transport-failure-is-thrown-only-when-no-complete-request-is-buffered-and-loses-nothing",
-             f"implies({is_throw} and not typeof(result.exception, 'StreamProtocolParseError'), {U} == {X} and fn('S_kind', 'int', {X}) == 0)", "C15 C10"),
+             f"implies({is_throw} and not typeof(result.exception, 'StreamProtocolParseError'), {U} == {X} and ({BADT} or fn('S_kind', 'int', {X}) == 0))", "C15 C10"),
+            BAD_TIMEOUT,
             ("always-an-action", f"{is_send} or {is_throw}", "C15"),
         ] + FILTER_POST + [(f"consumer-inv-{i}", e, "C15") for i, e in enumerate(cons_inv)],
         raises={
@@ -77,8 +78,10 @@ FILTER_POST = [
      "ghost.filter_accepts == old(ghost.filter_accepts)", "C15"),
 ]
 FILTER_STOP = [FILTER_POST[0], ("the-request-stream-ends-on-at-most-one-accepted-disconnection", "ghost.filter_accepts <= old(ghost.filter_accepts) + 1", "C15")]
-FMODS = ["ghost.io_exc", "ghost.filter_calls", "ghost.filter_accepts"]
-VAR = {"AsyncStreamReadTransport.recv": "server", "AsyncStreamReadTransport.recv_into": "server"}
+FMODS = ["ghost.io_exc", "ghost.filter_calls", "ghost.filter_accepts", "ghost.bad_timeouts"]
+BADT = "ghost.bad_timeouts > old(ghost.bad_timeouts)"
+BAD_TIMEOUT = ("an-unusable-yielded-timeout-is-reported-to-the-handler-before-anything-is-read-and-costs-nothing", f"implies({BADT}, typeof(result, 'ThrowAction') and ghost.IN == old(ghost.IN))", "C15 C17")
+VAR = {"AsyncStreamReadTransport.recv": "server", "AsyncStreamReadTransport.recv_into": "server", "AsyncBackend.timeout": "yielded"}
 
 
 def register_server_read_variants(R):
@@ -163,7 +166,8 @@ def register_buffered(R):
             ("a-parse-error-is-thrown-at-its-position-and-costs-exactly-that-frame",
              f"implies({is_throw} and typeof(result.exception, 'StreamProtocolParseError'), {p['err']} and {U} == {p['rest']})", "C15 C02"),
             ("a-timeout-cancellation-or-transport-failure-is-thrown-only-when-no-complete-request-is-buffered-and-loses-nothing",
-             f"implies({is_throw} and not typeof(result.exception, 'StreamProtocolParseError') and not typeof(result.exception, 'RuntimeError'), {U} == {X} and fn('S_kind', 'int', {X}) == 0)", "C15 C10"),
+             f"implies({is_throw} and not typeof(result.exception, 'StreamProtocolParseError') and not typeof(result.exception, 'RuntimeError'), {U} == {X} and ({BADT} or fn('S_kind', 'int', {X}) == 0))", "C15 C10"),
+            BAD_TIMEOUT,
             ("always-an-action", f"{is_send} or {is_throw}", "C15"),
         ] + FILTER_POST + cons,
         raises={"StopAsyncIteration": [("only-at-end-of-stream-or-filtered-disconnect-with-no-complete-request-buffered", f"{U} == {X} and fn('S_kind', 'int', {X}) == 0", "C15 C03")] + FILTER_STOP + cons},
@@ -179,6 +183,8 @@ def register_buffered(R):
 
 def register_client_task(R):
     R.ghost(actions="int")
+    R.assume("C17/C15 client task: closing the connection's transport (aclose / aclose_forcefully) does not itself fail with an Exception "
+             "(the shipped adapters swallow OSError on close); a transport whose aclose() raises is outside the fault model")
     R.external("contextlib.AsyncExitStack", "stubs.async_backend.AsyncExitStack")
     R.module("easynetwork/lowlevel/_stream.py")
     R.inline_fn("StreamDataProducer.__init__", "StreamDataConsumer.__init__", "BufferedStreamDataConsumer.__init__", "_check_protocol", "_check_any_protocol", "_check_buffered_protocol")
@@ -229,7 +235,8 @@ def register_client_task_variant(R, variant, shape, cons_inv, gen, closed_once, 
                 "transport": "AsyncStreamTransport"},
         locals_types={"action": "opt[obj]", "timeout": "opt[xreal]"},
         requires=[("deserializer-needs-input", "fn('S_kind', 'int', b'') == 0")],
-        loops={1: {"inv": [sent_once, f"not {gen}.finished", f"{gen}.closed == 0", "ghost.actions >= old(ghost.actions)", "ghost.live_gens == old(ghost.live_gens) + 1", "timeout == ghost.last_timeout"] + cons_inv}},
+        loops={1: {"inv": [sent_once, f"not {gen}.finished", f"{gen}.closed == 0", "ghost.actions >= old(ghost.actions)", "ghost.live_gens == old(ghost.live_gens) + 1", "timeout == ghost.last_timeout",
+                           "ghost.handler_failures >= old(ghost.handler_failures)"] + cons_inv}},
         ensures=[
             ("connection-closed-on-exit", "transport.close_requested", "C15 C14"),
             ("no-generator-left-running-and-the-live-one-closed-exactly-once", closed_once, "C15"),
@@ -239,10 +246,14 @@ def register_client_task_variant(R, variant, shape, cons_inv, gen, closed_once, 
             ("connection-closed-on-exit", "transport.close_requested", "C15 C14 C17"),
             ("no-generator-left-running-and-the-live-one-closed-exactly-once", closed_once, "C15"),
             ("every-action-produced-by-the-receiver-was-handed-to-the-handler-exactly-once", sent_once, "C15"),
+            ("an-Exception-leaves-the-client-task-only-if-the-handler-generator-itself-raised-it (receive errors, parse errors, an unusable yielded timeout are thrown INTO the handler)",
+             "implies(typeof(exc, 'Exception'), ghost.handler_failures > old(ghost.handler_failures))", "C17 C15"),
         ]},
-        env={"call_hints": {"next": [("the-receiver-waits-exactly-the-timeout-the-handler-just-yielded", "arg('timeout') == pre(ghost.last_timeout)", "C15"),
+        # listed assumption (as in c_containment): closing the connection's transport does not itself fail with an Exception
+        env={"callee_raise_filter": {"AsyncBaseTransport.aclose": "not typeof(exc, 'Exception')"},
+             "call_hints": {"next": [("the-receiver-waits-exactly-the-timeout-the-handler-just-yielded", "arg('timeout') == pre(ghost.last_timeout)", "C15"),
                                      ("once-the-connection-is-being-closed (by the handler or anyone) no further request is read or handed to the handler",
                                       "not pre(transport.close_requested)", "C15 C14")]}},
-        modifies=["transport.close_requested", "ghost.delivered", "ghost.actions", "ghost.live_gens", "ghost.last_timeout", "ghost.IN", "ghost.recv_calls", "ghost.EOF", "ghost.io_errors"] + FMODS,
+        modifies=["transport.close_requested", "ghost.delivered", "ghost.actions", "ghost.live_gens", "ghost.last_timeout", "ghost.IN", "ghost.recv_calls", "ghost.EOF", "ghost.io_errors", "ghost.handler_failures"] + FMODS,
         tags="C15 C14",
     )
